@@ -22,8 +22,8 @@ import threading
 import vlib
 
 H = "h_bounds"
-LEAN_MODULES = ["BFL.Model.Bounds.Algebra", "BFL.Model.Bounds.Models", "BFL.Model.Bounds.Sigma", "BFL.Model.Bounds.Particles", "BFL.Model.Bounds.Cases",
-                "BFL.Proofs.Bounds", "BFL.Proofs.BoundsSigma", "BFL.Proofs.BoundsCorr", "BFL.Proofs.BoundsPart", "BFL.Props.C14"]
+LEAN_MODULES = ["BFL.Model.Bounds.Algebra", "BFL.Model.Bounds.Models", "BFL.Model.Bounds.Sigma", "BFL.Model.Bounds.Particles", "BFL.Model.Bounds.Cases", "BFL.Model.Bounds.Filters", "BFL.Model.Bounds.Handover",
+                "BFL.Proofs.Bounds", "BFL.Proofs.BoundsSigma", "BFL.Proofs.BoundsCorr", "BFL.Proofs.BoundsPart", "BFL.Proofs.BoundsFilt", "BFL.Proofs.BoundsHand", "BFL.Props.C14"]
 
 LAYOUTS_SMALL = [(dl, dc, q) for dl in range(0, 4) for dc in range(0, 3) for q in (0, 1) if not (q == 1 and dc == 0)]
 
@@ -695,6 +695,184 @@ def gen_handover(ctx):
 GENERATORS.append(gen_handover)
 
 
+
+# --------------------------------------------------------------------------- round 4
+
+LOGDIR = vlib.BUILD / ("c14-logger-%d" % __import__("os").getpid())
+WINDOWED = (1, 2, 3, 5, 6, 7, 9, 10, 11)      # smean wmean emean smode wmode emode smap wmap emap
+HUGE = (2 ** 31, 2 ** 32, 2 ** 32 + 1, 2 ** 64 - 1)
+
+
+def gen_round4(ctx):
+    """round-4 classes: self move / const-rvalue hand-over; histories longer than any fixed internal capacity (>= 31, >= 65, >= 257
+    elements) for every window; EstimatesExtraction hand-over language; Logger; filter skip commands in front of filtering steps;
+    default virtuals; two-argument LinearModel constructor; indices over the whole size_t range"""
+    out = []
+    g = ctx.gen("round4")
+    # --- self move (kind 4) of every class with a move assignment, Resampling::operator=(const Resampling&&) (kind 5)
+    for cls in (0, 1, 2, 7):
+        for b in (1, 2, 3, 4):
+            for N in (1, 3):
+                out.append(("b_handover %d 4 %d 0 %d 0 %d" % (cls, b % 4 + 1, b, N), "handover"))
+    for b in (1, 2, 3):
+        for N in (1, 3):
+            out.append(("b_handover 3 4 %d 0 %d 0 %d" % (b % 3 + 1, b, N), "handover"))
+            for hb in (1, 2):
+                out.append(("b_handover 5 4 %d %d %d %d %d" % (b % 3 + 1, 3 - hb, b, hb, N), "handover"))
+    for (sb, mb) in ((4, 2), (2, 1), (1, 1), (3, 2)):
+        for N in (1, 4):
+            out.append(("b_handover 4 4 %d %d %d %d %d" % (sb + 1, mb, sb, mb, N), "handover"))
+    for (gb, rb) in ((3, 2), (2, 5), (4, 0), (1, 9)):
+        for N in (4, 8, 10):
+            out.append(("b_handover 6 4 %d %d %d %d %d" % (gb + 1, 9 - rb, gb, rb, N), "handover"))
+    for (lb, cb) in ((3, 1), (1, 1), (4, 0), (0, 3), (2, 0)):
+        for meth in range(0, 12):
+            out.append(("b_handover 8 4 %d %d %d %d %d" % (cb + 1, lb, lb, cb, meth), "handover"))
+    for cls in (12, 13):
+        for (lb, cb) in ((3, 0), (1, 1), (2, 2), (0, 1)):
+            for N in (1, 3):
+                out.append(("b_handover %d 4 %d %d %d %d %d" % (cls, lb + 1, cb, lb, cb, N), "handover"))
+    for kind in (4, 5):
+        for N in (1, 4, 17):
+            for b1 in (2, 3):
+                out.append(("b_handover 14 %d 0 0 %d 0 %d" % (kind, b1, N), "handover"))
+    # --- HistoryBuffer: more elements than any fixed capacity, EVERY window 2..30 (and the clamped 0, 1, 31, 2^31, 2^32-1), the
+    #     history read around every multiple of 30 / 32 / 64 / 128 / 256 and after a self move
+    marks = set()
+    for base in (30, 32, 60, 64, 90, 128, 256):
+        marks.update(range(base - 2, base + 4))
+    for w in list(range(0, 33)) + [2 ** 31, 2 ** 32 - 1]:
+        for total in (35, 70, 262):
+            if ctx.tier != "thorough" and total == 262 and w % 4 != ctx.seed % 4 and w not in (2, 29, 30, 31):
+                continue
+            ops = ["s%d" % w]
+            wc = 2 if w < 2 else min(w, 30)
+            for i in range(1, total + 1):
+                ops.append("a3")
+                if i in marks or i <= 3 or i in (wc - 1, wc, wc + 1) or (i % wc == 1 and i < 100):
+                    ops.append("g")
+                if i == 40:
+                    ops += ["S", "g"]
+            ops += ["g", "d", "g", "a3", "g", "i", "a3", "g"]
+            out.append(("b_hist 3 %s" % " ".join(ops), "hist"))
+    for _ in range(ctx.n(20, 150)):          # long random histories (up to 300 operations) with self moves
+        S, n, ops = g.r.choice([1, 2, 4]), g.r.randint(61, 300), []
+        for _ in range(n):
+            x = g.r.random()
+            ops.append("a%d" % S if x < 0.8 else g.r.choice(["g", "g", "S", "d", "i", "m0", "s%d" % g.r.choice([2, 3, 7, 29, 30, 31, 64])]))
+        out.append(("b_hist %d %s g" % (S, " ".join(ops)), "hist"))
+    # --- EstimatesExtraction: >= 31 / >= 65 / >= 257 extractions with every window and every windowed method
+    for w in range(1, 33):
+        for mi, m in enumerate(WINDOWED):
+            for reps in (33, 66, 258):
+                if ctx.tier != "thorough" and not ((w + mi) % 9 == ctx.seed % 9 or (w in (1, 2, 29, 30, 31) and mi % 3 == ctx.seed % 3)):
+                    continue
+                if ctx.tier != "thorough" and reps == 258 and w % 3 != ctx.seed % 3:
+                    continue
+                ls, cs, N = 1 + (w % 2), w % 3 % 2, 2 + w % 3
+                out.append(("b_ee %d %d %d 1 %d %d %d %d %d %d %d %d %d" % (ls, cs, m, ls + cs, N, N, N, N, N, N, reps, w), "ee"))
+    out.append(("b_ee 2 1 1 0 3 4 4 0 0 0 0 40 2147483647", "ee"))       # window INT_MAX: clamped to 30
+    # --- EstimatesExtraction hand-over language
+    def ee_move(kind):
+        return "%s%d_%d_%d_%d_%d" % (kind, g.r.choice([0, 1, 2, 4]) + (1 if kind == "M" else 0), g.r.choice([0, 1, 2]), g.r.choice([0, 0, 2, 7, 30]),
+                                     g.r.choice([0, 1, 3, 6, 35]), g.r.choice(list(WINDOWED) + [0, 4, 8]))
+    for (ls, cs) in ((2, 1), (3, 0), (0, 2), (1, 1)):
+        for N in (1, 4):
+            for m in WINDOWED:
+                # used, handed over to itself / a new object / from and into an extractor of other sizes, used again longer than the window
+                pre = " ".join(["x%d_1" % m] * 4)
+                post = " ".join(["x%d_1" % m] * 7)
+                out.append(("b_eehand %d %d %d %s S %s c %s" % (ls, cs, N, pre, post, post), "eehand"))
+                out.append(("b_eehand %d %d %d %s M%d_%d_3_5_%d %s" % (ls, cs, N, pre, ls + 2, cs, m, post), "eehand"))
+                out.append(("b_eehand %d %d %d w2 %s T%d_%d_0_2_%d %s w30 %s" % (ls, cs, N, pre, cs + 1, ls, WINDOWED[(m + 3) % 9], post, post), "eehand"))
+            for _ in range(ctx.n(4, 30)):
+                ops = []
+                for _ in range(g.r.randint(3, 40)):
+                    x = g.r.random()
+                    ops.append("x%d_%d" % (g.r.randint(0, 11), g.r.randint(0, 1)) if x < 0.7 else
+                               g.r.choice(["S", "c", "w%d" % g.r.choice([0, 1, 2, 5, 30, 31]), ee_move("M"), ee_move("T")]))
+                out.append(("b_eehand %d %d %d %s x1_0 x10_1" % (ls, cs, N, " ".join(ops)), "eehand"))
+    out.append(("b_eehand 2 0 0 x1_0", "eehand"))        # no particles: outside the precondition
+    # --- Logger: every (names, data) pair of the generic subclass x every operation sequence of length <= 3, longer ones, shipped classes
+    alpha = ["e1_1", "e0_2", "d", "l", "q"]
+    seqs = [[a] for a in alpha] + [[a, b] for a in alpha for b in alpha] + [[a, b, c] for a in ("e1_1", "e0_2") for b in alpha for c in alpha]
+    seqs += [["e1_1", "l", "l", "d", "l", "e1_3", "e1_4", "l", "q", "d", "d", "q"], ["e0_5", "l", "e1_6", "l", "e0_7", "q", "d", "e0_8", "q", "l"]]
+    for n in range(0, 5):
+        for k in range(1, 5):
+            for sq in (seqs if (ctx.tier == "thorough" or (n + k) % 4 == ctx.seed % 4 or n == k) else seqs[-2:] + [["e1_1", "l"]]):
+                out.append(("b_logger %s 0 %d %d %s" % (LOGDIR, n, k, " ".join(sq)), "logger"))
+    for cls in (1, 2, 3):
+        for sq in seqs[:5] + seqs[5:30:3] + seqs[-2:] + [["e1_1", "l"], ["e1_9", "l", "l", "l", "d", "l", "q"]]:
+            out.append(("b_logger %s %d 0 0 %s" % (LOGDIR, cls, " ".join(sq)), "logger"))
+    # --- GaussianFilter::skip / ParticleFilter::skip: every command history of length <= 2 (6 names x on/off), then filtering steps
+    cmds = [(w, b) for w in range(0, 6) for b in (1, 0)]
+    hist = [[]] + [[c] for c in cmds] + [[c, e] for c in cmds for e in cmds]
+    for exo in (0, 1):
+        for i, h in enumerate(hist):
+            if ctx.tier != "thorough" and len(h) == 2 and i % 3 != ctx.seed % 3:
+                continue
+            fn, K, hm = 1 + i % 3, 1 + i % 2, 1 + (i // 2) % 2
+            out.append(("b_gfilter %d %d %d %d 2 %d %s" % (exo, fn, K, hm, len(h), " ".join("%d %d" % c for c in h)), "gfilter"))
+        for (lin, circ, d) in ((2, 0, 1), (3, 1, 2), (6, 0, 3)):
+            for h in hist[:13] + [[g.r.choice(cmds) for _ in range(g.r.randint(2, 5))] for _ in range(ctx.n(6, 40))]:
+                out.append(("b_pfilter %d 4 %d %d %d 2 2 %d 3 %d %s" % (exo, lin, circ, d, 1 + len(h) % 2, len(h), " ".join("%d %d" % c for c in h)), "pfilter"))
+    out.append(("b_gfilter 0 2 2 0 1 0", "gfilter"))           # empty H: throws
+    out.append(("b_pfilter 0 4 3 0 2 2 2 1 2 1 1 1", "pfilter"))   # state of another size than the motion model, but the prediction is skipped
+    out.append(("b_pfilter 0 4 3 0 2 2 2 1 2 0", "pfilter"))       # … and not skipped: aborts at the first prediction
+    # --- default virtuals reached through shipped classes
+    for which in range(1, 8):
+        out.append(("b_defaults %d 0 0 0" % which, "defaults"))
+    for fn in (1, 2, 3):
+        for sr in (fn, fn + 1, max(fn - 1, 0)):
+            for N in (0, 1, 3):
+                out.append(("b_defaults 0 %d %d %d" % (fn, sr, N), "defaults"))
+    # --- two-argument LinearModel constructor
+    out += [("b_lm2" + ln[len("b_lm"):], "lm") for i, (ln, _) in enumerate(gen_lm(ctx)) if i % 3 == ctx.seed % 3 and ln.startswith("b_lm ")]
+    # --- indices over the whole size_t range (all outside the precondition: every one must abort, none may be narrowed to a valid one)
+    for big in HUGE:
+        out.append(("b_gmacc 2 2 1 0 0 mean1 %d 0 0" % big, "gmacc"))
+        out.append(("b_gmacc 2 2 1 0 0 cov1 %d 0 0" % big, "gmacc"))
+        out.append(("b_gmacc 2 2 1 0 0 w1 %d 0 0" % big, "gmacc"))
+        out.append(("b_gmacc 2 2 1 0 0 mean2 0 %d 0" % big, "gmacc"))
+        out.append(("b_gmacc 2 2 1 0 0 cov3 1 %d 0" % big, "gmacc"))
+        out.append(("b_gmacc 2 2 1 0 0 cov3 1 0 %d" % big, "gmacc"))
+        out.append(("b_psacc 3 2 1 0 state1 %d 0" % big, "psacc"))
+        out.append(("b_psacc 3 2 1 0 state2 1 %d" % big, "psacc"))
+    # --- quaternion / circular layouts for consumers that had linear ones only
+    for (d, dl, dc, q) in ((2, 0, 1, 1), (3, 2, 1, 1), (2, 2, 2, 0), (1, 0, 2, 0)):
+        for N in (1, 3):
+            for exo in (0, 1):
+                out.append(("b_draw %d %d %d %d %d %d %d %d %d %d" % (d, N, dl, dc, q, N, dl, dc, q, exo), "draw"))
+    for (dl, dc, q) in ((0, 1, 1), (2, 2, 1), (0, 2, 0)):
+        for N in (1, 3):
+            out.append(("b_boot %d %s %d %s 0  %s" % (N, lay(dl, dc, q), N, lay(dl, dc, q), meas_tokens(dl, dc, q, 2, 2, 0, 0, 2, 0, 2, 2, 2)), "boot"))
+    return out
+
+
+GENERATORS.append(gen_round4)
+
+
+def gen_static_sequences(ctx):
+    """DEEPEN v: call sequences in ONE process whose shapes are non-monotone in rows while the element count does not grow (2 x 100, then
+    5 x 11 / 6 x 11, then 2 x 100 again) for every consumer with a sample / sigma-point / workspace buffer; run in order by ONE harness process"""
+    m2 = meas_tokens(2, 0, 0, 1, 1, 0, 0, 1, 0, 1, 1, 1)
+    m5 = meas_tokens(5, 0, 0, 3, 3, 0, 0, 3, 0, 3, 3, 3)
+    a = ["b_wna_noise 1 100", "b_wna_motion 1 100 2", "b_wna_tp 1 100 2", "b_lm_seq 6 2 0 1 1 100", "b_sp 20 2 0 0 0", "b_ut 20 2 0 0 0 2 2 0 0 2 0 1",
+         "b_kfc 20 2 0 0 20 2 0 0 1 2 1 1", "b_ukfc 1 20 2 0 0 20 2 0 0 %s" % m2, "b_ukfc 2 20 2 0 0 20 2 0 0 %s 1 0" % m2,
+         "b_rs 100 2 0 0 100 2 0 0 100 0", "b_rwp 100 1 2 2 0 0 2 2 100 0", "b_ee 2 0 1 1 2 100 100 100 100 100 100 3 0", "b_glik 100 2  %s" % m2,
+         "b_boot 100 2 0 0 100 2 0 0 0  %s" % m2, "b_draw 1 100 2 0 0 100 2 0 0 0", "b_gpfc 1 50 50 1 1 1 0", "b_kfp 20 2 0 0 20 2 0 0 2 0 0 0",
+         "b_ukfp 1 20 2 0 0  2 2 2 0 0 0 0", "b_gmaug 20 2 0 0 1 1 0 0", "b_psadd 50 2 0 0 50 2 0 0", "b_grid 10 10 100 4 0 0"]
+    b = ["b_wna_noise 3 11", "b_wna_motion 3 11 6", "b_wna_tp 3 11 6", "b_lm_seq 6 5 0 1 2 3 4 1 11", "b_sp 1 5 0 0 0", "b_ut 1 5 0 0 0 5 5 0 0 5 0 1",
+         "b_kfc 1 5 0 0 1 5 0 0 3 5 3 1", "b_ukfc 1 1 5 0 0 1 5 0 0 %s" % m5, "b_ukfc 2 1 5 0 0 1 5 0 0 %s 3 0" % m5,
+         "b_rs 11 5 0 0 11 5 0 0 11 0", "b_rwp 11 1 2 5 0 0 2 2 11 0", "b_ee 5 0 1 1 5 11 11 11 11 11 11 3 0", "b_glik 11 5  %s" % m5,
+         "b_boot 11 5 0 0 11 5 0 0 0  %s" % m5, "b_draw 3 11 6 0 0 11 6 0 0 0", "b_gpfc 3 11 11 3 3 1 0", "b_kfp 1 5 0 0 1 5 0 0 5 0 0 0",
+         "b_ukfp 1 1 5 0 0  5 5 5 0 0 0 0", "b_gmaug 1 5 0 0 3 3 0 0", "b_psadd 5 5 0 0 6 5 0 0", "b_grid 1 11 11 4 0 0"]
+    seq = []
+    for x, y in zip(a, b):
+        seq += [x, y, x]
+    seq += a + b + a
+    return [(" ".join(ln.split()), group_of(ln)) for ln in seq]
+
 # --------------------------------------------------------------------------- running
 
 def par_harness(binary, lines, jobs=8):
@@ -1005,6 +1183,11 @@ ENTRY = {
     "ukfp_add": "UKFPrediction::predict (additive)", "draw": "DrawParticles::predict", "glik": "GaussianLikelihood::likelihood",
     "boot": "BootstrapCorrection::correct/getLikelihood", "gpfc": "GPFCorrection::correct", "sis": "SIS (initialisation + filtering steps, real thread)",
     "handover": "object handed over by move / copy (source of another configuration), then used",
+    "eehand": "EstimatesExtraction (extractions, window changes, move construction / assignment / self move)",
+    "logger": "Logger::enable_log/disable_log/logger (file streams indexed by position)",
+    "gfilter": "GaussianFilter::skip + filtering steps (KFPrediction, KFCorrection; real thread)",
+    "pfilter": "ParticleFilter::skip + SIS filtering steps (real thread)",
+    "defaults": "default (throwing) virtuals of StateModel / MeasurementModel / GaussianCorrection through shipped classes",
     "psaddself": "ParticleSet::operator+= (a += a)", "gmaugalias": "GaussianMixture::augmentWithNoise(own covariance block)",
 }
 
@@ -1017,7 +1200,9 @@ def group_of(line):
         return ("ukf_gen", "ukf_add", "sukf")[min(int(t[1]), 2)]
     if op == "corrseq":
         return ("ukf_seq", "ukf_seq", "sukf_seq", "kf_seq")[min(int(t[1]), 3)]
-    return {"kfc": "kf"}.get(op, op)
+    if op == "ukfcmv":
+        return ("ukf_gen", "ukf_add", "sukf")[min(int(t[1]), 2)]
+    return {"kfc": "kf", "lm2": "lm"}.get(op, op)
 
 
 def run(ctx):
@@ -1044,7 +1229,27 @@ def run(ctx):
             uniq.append((key, group))
     cases = uniq
     lines = [c[0] for c in cases]
-    houts, logs = par_harness(binary, lines)
+    import os, shutil
+    logdirs = set(ln.split()[1] for ln in lines if ln.startswith("b_logger ") and len(ln.split()) > 1)
+    for d in logdirs:                      # Logger cases write into a temporary directory under the build dir, removed afterwards
+        if os.path.realpath(d).startswith(os.path.realpath(str(vlib.BUILD))):
+            os.makedirs(d, exist_ok=True)
+    try:
+        houts, logs = par_harness(binary, lines)
+        # static / thread-local scratch state: ordered sequences run by ONE process (not deduplicated, not sliced)
+        seq_cases = [] if ctx.replay else gen_static_sequences(ctx)
+        if seq_cases:
+            so, sl = vlib.run_harness(binary, [c[0] for c in seq_cases], timeout=120)
+            base = len(cases)
+            houts += so
+            for k, v in sl.items():
+                logs[base + k] = v
+            cases += seq_cases
+            lines += [c[0] for c in seq_cases]
+    finally:
+        for d in logdirs:
+            if os.path.realpath(d).startswith(os.path.realpath(str(vlib.BUILD))):
+                shutil.rmtree(d, ignore_errors=True)
     douts = vlib.run_driver(lines)
 
     hist_group, hist_outcome = {}, {}
